@@ -109,11 +109,11 @@ Proof. intros g i d m _ Hm. lia. Qed.
 (* ------------------------------------------------------------------------------------------ *)
 Theorem self_stabilises_converged : forall S n evs,
   net_ok S -> settled (topo_of S) = true ->
-  (N.to_nat INF + maxdist (topo_of S) <= n)%nat -> nrounds (topo_of S) n evs ->
+  (N.to_nat INF + maxdist (topo_of S) <= n)%nat -> arounds (topo_of S) n S evs ->
   converged (run S evs) = true.
 Proof.
   intros S n evs Hok Hs Hn Hr.
-  destruct (self_stabilises (topo_of S) Hs (N.of_nat (maxdist (topo_of S))) n evs S) as [Hc [Hok' Hg']].
+  destruct (self_stabilises (topo_of S) Hs (N.of_nat (maxdist (topo_of S))) n S evs) as [Hc [Hok' Hg']].
   - split; [exact Hok | reflexivity].
   - apply maxdist_bound.
   - lia.
@@ -125,7 +125,7 @@ Qed.
 Theorem reconverges_after_any_history : forall hist n evs,
   let S := run [] hist in
   settled (topo_of S) = true ->
-  (N.to_nat INF + maxdist (topo_of S) <= n)%nat -> nrounds (topo_of S) n evs ->
+  (N.to_nat INF + maxdist (topo_of S) <= n)%nat -> arounds (topo_of S) n S evs ->
   converged (run S evs) = true.
 Proof.
   intros hist n evs S Hs Hn Hr.
@@ -137,13 +137,13 @@ Qed.
 (* the lower bound in the usual form: estimates are at least min(distance, rounds, INF)       *)
 (* ------------------------------------------------------------------------------------------ *)
 Theorem lower_bound : forall S n evs i ri d,
-  net_ok S -> settled (topo_of S) = true -> nrounds (topo_of S) n evs ->
+  net_ok S -> settled (topo_of S) = true -> arounds (topo_of S) n S evs ->
   getr (run S evs) i = Some ri ->
   (forall m, isdist (topo_of S) i d m -> N.min (N.min m (N.of_nat n)) INF <= b1 (rrib ri) d) /\
   ((forall m, ~ isdist (topo_of S) i d m) -> N.min (N.of_nat n) INF <= b1 (rrib ri) d).
 Proof.
   intros S n evs i ri d Hok Hs Hr Gi.
-  destruct (lower_bound_rounds (topo_of S) Hs n evs S (conj Hok eq_refl) Hr) as [Hat HLB].
+  destruct (lower_bound_rounds (topo_of S) Hs n S evs (conj Hok eq_refl) Hr) as [Hat HLB].
   pose proof Hat as [[_ Hall] _].
   destruct (getr_some _ _ _ Gi) as [Ii Si]. destruct (Hall ri Ii) as (Ri & _).
   assert (Hw : b1 (rrib ri) d < N.of_nat n -> b1 (rrib ri) d < INF -> reachN (topo_of S) (b1 (rrib ri) d) i d).
@@ -194,11 +194,13 @@ Qed.
 
 Lemma growth_step_NU : forall S e, net_ok S -> NUs S -> is_growth e = true -> NUs (fst (step S e)).
 Proof.
-  intros S e Hok HNU Hg. destruct e as [i j | i j | i j | i | i]; simpl in Hg; try discriminate.
+  intros S e Hok HNU Hg. destruct e as [i j | i j adv | i j | i j | i | i]; simpl in Hg; try discriminate.
   - (* Fetch *)
     assert (Hat : at_g (topo_of S) S) by (split; [exact Hok | reflexivity]).
-    pose proof (NU_step (topo_of S) S i j Hat HNU) as H.
-    destruct (fetch_at_g (topo_of S) S i j Hat) as [_ Hg'].
+    pose proof (NU_fetch (topo_of S) S i j Hat HNU) as H.
+    assert (Hg' : topo_of (fst (step S (Fetch i j))) = topo_of S).
+    { destruct (fetch_as_deliver (topo_of S) S i j Hat) as [[-> _] | (rj & _ & ->)]; [reflexivity|].
+      apply (deliver_at_g (topo_of S) S i j _ Hat). }
     unfold NUs. rewrite Hg'. exact H.
   - (* NbrUp *)
     simpl. destruct (getr S i) as [ri|] eqn:Gi; [|exact HNU].
@@ -254,13 +256,13 @@ Proof. intros i j He ri d G. discriminate. Qed.
 Theorem converges_clean_start : forall hist n evs,
   let S := run [] hist in
   forallb is_growth hist = true -> settled (topo_of S) = true ->
-  (maxdist (topo_of S) <= n)%nat -> nrounds (topo_of S) n evs ->
+  (maxdist (topo_of S) <= n)%nat -> arounds (topo_of S) n S evs ->
   converged (run S evs) = true.
 Proof.
   intros hist n evs S Hg Hs Hn Hr.
   assert (Hok : net_ok S) by (apply run_ok; apply net_ok_nil).
   assert (HNU : NUs S) by (apply growth_run_NU; [apply net_ok_nil | apply NUs_nil | exact Hg]).
-  destruct (converges_from_NU (topo_of S) Hs (N.of_nat (maxdist (topo_of S))) n evs S) as [Hc [Hok' Hg']].
+  destruct (converges_from_NU (topo_of S) Hs (N.of_nat (maxdist (topo_of S))) n S evs) as [Hc [Hok' Hg']].
   - split; [exact Hok | reflexivity].
   - exact HNU.
   - apply maxdist_bound.
